@@ -2,15 +2,37 @@ module verifharness
 
 go 1.26.5
 
-require github.com/voedger/voedger v0.0.0
+require (
+	github.com/golang-jwt/jwt/v5 v5.3.1
+	github.com/voedger/voedger v0.0.0
+)
 
 require (
+	github.com/VictoriaMetrics/fastcache v1.13.3 // indirect
+	github.com/alecthomas/participle/v2 v2.1.4 // indirect
+	github.com/cespare/xxhash/v2 v2.3.0 // indirect
 	github.com/davecgh/go-spew v1.1.1 // indirect
+	github.com/golang/snappy v1.0.0 // indirect
+	github.com/google/flatbuffers v25.12.19+incompatible // indirect
+	github.com/google/go-cmp v0.7.0 // indirect
 	github.com/google/uuid v1.6.0 // indirect
+	github.com/hashicorp/golang-lru/v2 v2.0.7 // indirect
+	github.com/juju/errors v1.0.0 // indirect
 	github.com/pmezard/go-difflib v1.0.0 // indirect
+	github.com/robfig/cron/v3 v3.0.1 // indirect
+	github.com/stretchr/objx v0.5.3 // indirect
 	github.com/stretchr/testify v1.11.1 // indirect
+	github.com/tetratelabs/wazero v1.12.0 // indirect
+	github.com/untillpro/dynobuffers v0.0.0-20251212090544-93da105bf1da // indirect
+	github.com/untillpro/gojay v1.2.17-0.20250325110036-70ad3373aa24 // indirect
+	github.com/valyala/bytebufferpool v1.0.0 // indirect
+	github.com/wneessen/go-mail v0.8.1 // indirect
 	go.etcd.io/bbolt v1.5.0 // indirect
+	golang.org/x/crypto v0.54.0 // indirect
+	golang.org/x/exp v0.0.0-20260709172345-9ea1abe57597 // indirect
 	golang.org/x/sys v0.47.0 // indirect
+	golang.org/x/text v0.40.0 // indirect
+	gopkg.in/yaml.v2 v2.4.0 // indirect
 	gopkg.in/yaml.v3 v3.0.1 // indirect
 )
 
